@@ -158,8 +158,9 @@ def oracle_raw(c, ctx):
         obj = set_raw(B.BlockAutoregressiveNetwork(key, dim=n, depth=1 + c["seed"] % 2, block_dim=2), vals)
         for (lin, _), (raw_lin, _) in zip(wrappers.unwrap(obj).layers, obj.layers):
             pre = np.asarray(wrappers.unwrap(raw_lin.weight.weight), np.float64)  # masked/constrained, before weight norm
-            if F32 and np.any(np.max(np.abs(pre), axis=-1) < 1e-18):
-                # known finding (float32 only): the squared row norm underflows -> 0/0; excluded here, probed separately
+            sc_row = np.asarray(wrappers.unwrap(raw_lin.weight.scale), np.float64).reshape(-1)
+            if F32 and (np.any(np.max(np.abs(pre), axis=-1) < 1e-18) or np.any(np.max(np.abs(pre), axis=-1) * sc_row < 1e-34)):
+                # known finding (float32 only): the squared row norm, or the product scale*weight, underflows; excluded here, probed separately
                 ctx.exclude("bnaf_f32_row_norm_underflow")
                 continue
             W = finite("BNAF", lin.weight, cfg)
